@@ -22,17 +22,19 @@ Section F2X.
 Variable fb : flat.
 Hypothesis HF : frag2 fb = true.
 Variables m lm : memo_t.
+Variables cn lcn : Z.
 
 Local Notation n := (length (fl_design fb)).
 Local Notation T := (fl_trials fb).
 Local Notation S0 := (code_sem fb).
-Local Notation en := (f0_enum fb m lm).
+Local Notation en := (f0_enum fb m lm cn lcn).
 Local Notation k := (length (fl_crossings fb)).
 
 Variable r : run.
-(** the candidate has a level of every factor in every trial, none of them excluded *)
+(** the candidate has a level of every factor in every trial, outside the source factors an admitted one *)
 Hypothesis Hcells : forall g, In g (fl_act fb) -> exists row, rlookup r g = Some row /\ length row = T /\
-  Forall (fun cell => exists l, cell = Some l /\ l < nlevels fb g /\ ~ In (FExclude g l) (fl_constraints fb)) row.
+  Forall (fun cell => exists l, cell = Some l /\ l < nlevels fb g /\
+                                (~ In g (f0_ubs fb) -> ~ In (FExclude g l) (fl_constraints fb))) row.
 Local Notation s := (tseq_of_run fb r).
 
 Definition lev (f t : nat) : nat :=
@@ -43,7 +45,7 @@ Definition lev (f t : nat) : nat :=
 
 Lemma lev_cell g t : In g (fl_act fb) -> t < T ->
   exists row, rlookup r g = Some row /\ length row = T /\ nth_error row t = Some (Some (lev g t)) /\
-              lev g t < nlevels fb g /\ ~ In (FExclude g (lev g t)) (fl_constraints fb).
+              lev g t < nlevels fb g /\ (~ In g (f0_ubs fb) -> ~ In (FExclude g (lev g t)) (fl_constraints fb)).
 Proof.
   intros Hg Ht. destruct (Hcells g Hg) as (row & Hr & Hl & Hc). exists row. split; [exact Hr|]. split; [exact Hl|].
   rewrite Forall_forall in Hc. assert (Hin : In (nth t row None) row) by (apply nth_In; lia).
@@ -60,6 +62,9 @@ Proof.
   rewrite Z.sub_0_r, Z.add_0_l. unfold f0_leftover. rewrite <- Nat2Z.inj_div, <- Nat2Z.inj_mul, <- Nat2Z.inj_add.
   f_equal. pose proof (Nat.div_mod_eq T (f0_C fb)). lia.
 Qed.
+
+(** with several crossings no factor is derived *)
+Hypothesis Hnoder : has_derived fb = false.
 
 (** one crossing of the block against the reference semantics *)
 Lemma crossing_at i ci : nth_error (fl_crossings fb) i = Some ci ->
@@ -80,7 +85,7 @@ Proof.
   { unfold cw_of. destruct (first_index_of_spec ci _ Hci 0) as [j [Hj Hl]]. rewrite Hj. cbn [Nat.add].
     apply (f0_weights_pos fb (f0_unpack fb HF)). apply nth_In. rewrite (f0_weights_len fb (f0_unpack fb HF)). exact Hl. }
   rewrite (f0_code_crossing fb HF i ci Hci). fold si.
-  apply (crossing_violated_spec fb en r i ci lev (cw_of fb ci) si (allowed_combos fb ci)).
+  apply (crossing_violated_spec fb en r i ci lev (cw_of fb ci) si (allowed_combos2 fb ci)).
   - intros f Hf. destruct (Hcells f (Hrange f Hf)) as (row & Hr & Hl & _). exists row. split; [exact Hr|]. split; [exact Hl|].
     intros t0 Ht0. destruct (lev_cell f t0 (Hrange f Hf) Ht0) as (row' & Hr' & _ & Hn & _). rewrite Hr in Hr'. inversion Hr'; subst row'. exact Hn.
   - cbn [en_base f0_enum eb_preamble_sizes f0_base]. rewrite nth_error_map.
@@ -91,15 +96,21 @@ Proof.
   - destruct ci; [reflexivity|]. unfold sustain. apply (f0_sustain_of fb HF).
   - apply rounds_eq.
   - nia.
-  - unfold allowed_combos. apply NoDup_filter. apply product_NoDup.
+  - unfold allowed_combos2. apply NoDup_filter. apply product_NoDup.
     intros l Hl. apply in_map_iff in Hl. destruct Hl as [f [E _]]. subst l. unfold all_levels. apply seq_NoDup.
-  - intros t Ht. unfold K, allowed_combos. apply filter_In. split.
+  - intros t Ht. unfold K, allowed_combos2. apply filter_In. split.
     + apply product_In. apply Forall2_map_same'. intros f Hf. unfold all_levels. apply in_seq.
       destruct (lev_cell f t (Hrange f Hf) Ht) as (_ & _ & _ & _ & Hlt & _). lia.
-    + apply negb_true_iff. apply not_true_is_false. intros E. apply (f0_excluded_spec fb HF) in E.
+    + apply negb_true_iff. rewrite (f0_inconsistent_eq fb HF).
+      2:{ intros [pf pl] Hp. apply in_combine_l in Hp. cbn [fst] in *. pose proof Hnoder as Hnd'. unfold has_derived in Hnd'.
+          destruct (is_derived fb pf) eqn:Ed; [|reflexivity]. exfalso.
+          assert (existsb (is_derived fb) (fl_act fb) = true) by (apply existsb_exists; exists pf; split; [apply Hrange; exact Hp | exact Ed]).
+          congruence. }
+      apply not_true_is_false. intros E. apply (f0_excluded_spec fb HF) in E.
       destruct E as (f & l & Hk & Hl). rewrite alookup_combine_map in Hl. destruct (memb f ci) eqn:Em; [|discriminate].
       inversion Hl as [Hl']. apply memb_In in Em.
-      destruct (lev_cell f t (Hrange f Em) Ht) as (_ & _ & _ & _ & _ & Hne). apply Hne. rewrite Hl'. exact Hk.
+      destruct (lev_cell f t (Hrange f Em) Ht) as (_ & _ & _ & _ & _ & Hne). apply Hne; [|rewrite Hl'; exact Hk].
+      destruct (f0_no_derived_sf fb HF Hnoder) as (_ & _ & Hubs & _). rewrite Hubs. intros [].
   - exact Esi.
   - reflexivity.
   - intros t Ht. unfold combo_at, K. rewrite map_map. apply map_ext_in. intros f Hf.
